@@ -1155,8 +1155,11 @@ pub fn mtu_wire(scn: &Scenario, l: &RunLog, fault_free: bool) -> Vec<Finding> {
                 proven = proven.max(w.payload.len());
             }
         }
-        if probes > max_probes + 1 {
-            v.push(f("C14", "convergence", "mtu/too-many-probes", format!("{} probes on a path whose search range is {} bytes (logarithmic bound {})", probes, range, max_probes)));
+        // a probe never exceeds the congestion window (F27), so on a jumbo link the first few probes follow
+        // the window's slow-start doubling before the bisection proper begins: at most one more logarithm
+        let slow_start_probes = if ceiling > 2 * floor { (usize::BITS - (ceiling / (2 * floor)).leading_zeros()) as usize } else { 0 };
+        if probes > max_probes + 1 + slow_start_probes {
+            v.push(f("C14", "convergence", "mtu/too-many-probes", format!("{} probes on a path whose search range is {} bytes (logarithmic bound {} + {} while the congestion window is smaller than the probe)", probes, range, max_probes, slow_start_probes)));
         }
         let total: usize = firsts.iter().map(|w| w.payload.len()).sum();
         // enough bytes for the whole search: every probe is followed by a cool-down of 3 ordinary segments
